@@ -129,6 +129,18 @@ def inline_body(F, body, depth=3, _stack=None, keep=(), only=None):
                 changed = True
                 work.extend(range(nb0, len(raw["blocks"])))
                 continue
+        if t["k"] == "call" and t.get("target") is not None and t.get("dest") is not None and strip_generics(t.get("callee", "")) == "core::bool::<impl bool>::then_some" \
+                and len(blk.get("inl_stack", [])) >= 1:
+            # (only inside inlined helpers: `cond.then_some(x)` as a helper's way of saying "Some(x) if cond" must reach the caller's match)
+            if _summarise_then_some(raw, bi, t):
+                changed = True
+                continue
+        if t["k"] == "call" and t.get("target") is not None and t.get("dest") is not None and strip_generics(t.get("callee", "")) == "core::task::poll::Poll::map":
+            nb0 = len(raw["blocks"])
+            if _summarise_poll_map(raw, bi, t):
+                changed = True
+                work.extend(range(nb0, len(raw["blocks"])))
+                continue
         if t["k"] == "call" and t.get("target") is not None and t.get("dest") is not None and strip_generics(t.get("callee", "")) in _CTOR_MAPS:
             if _summarise_ctor_map(F, raw, bi, t):
                 changed = True
@@ -330,7 +342,8 @@ STD_SUMMARIES = {
     "core::option::Option::map_or": ("core::option::Option", "Some", "default"),
 }
 _VARIANTS = {"core::option::Option": [{"name": "None", "idx": 0, "discr": 0}, {"name": "Some", "idx": 1, "discr": 1}],
-             "core::result::Result": [{"name": "Ok", "idx": 0, "discr": 0}, {"name": "Err", "idx": 1, "discr": 1}]}
+             "core::result::Result": [{"name": "Ok", "idx": 0, "discr": 0}, {"name": "Err", "idx": 1, "discr": 1}],
+             "core::task::poll::Poll": [{"name": "Ready", "idx": 0, "discr": 0}, {"name": "Pending", "idx": 1, "discr": 1}]}
 
 
 def _summarise_enum_eq(F, raw, bi, t, body):
@@ -528,6 +541,76 @@ def _summarise_ctor_map(F, raw, bi, t):
     blk["stmts"] = blk["stmts"] + [{"k": "assign", "pl": {"l": d, "p": []}, "rv": {"k": "discr", "pl": {"l": subj, "p": []}, "adt": adt, "ty": adt, "variants": vs}, "span": span}]
     blk["term"] = {"k": "switch", "discr": {"k": "move", "pl": {"l": d, "p": []}}, "discr_ty": "isize", "targets": [[hv["discr"], b_hit]], "otherwise": b_other, "span": span,
                    "std_summary": strip_generics(t["callee"])}
+    return True
+
+
+def _summarise_then_some(raw, bi, t):
+    """`cond.then_some(v)` written out as `if cond { Some(v) } else { None }`"""
+    args = t.get("args", [])
+    if len(args) != 2 or args[0].get("k") not in ("copy", "move") or args[0]["pl"]["p"]:
+        return False
+    span = t.get("span", "")
+    blocks = raw["blocks"]
+    blk = blocks[bi]
+    inl = blk.get("inl_stack", [])
+    org = blk.get("origin", raw["path"])
+    b_some, b_none = len(blocks), len(blocks) + 1
+    blocks.append({"id": b_some, "cleanup": False, "origin": org, "inl_stack": inl, "stmts": [
+        {"k": "assign", "pl": copy.deepcopy(t["dest"]), "rv": {"k": "agg", "agg": "adt", "adt": "core::option::Option", "vidx": 1, "variant": "Some", "fields": ["0"], "ops": [copy.deepcopy(args[1])]}, "span": span}],
+        "term": {"k": "goto", "target": t["target"], "span": span}})
+    blocks.append({"id": b_none, "cleanup": False, "origin": org, "inl_stack": inl, "stmts": [
+        {"k": "assign", "pl": copy.deepcopy(t["dest"]), "rv": {"k": "agg", "agg": "adt", "adt": "core::option::Option", "vidx": 0, "variant": "None", "fields": [], "ops": []}, "span": span}],
+        "term": {"k": "goto", "target": t["target"], "span": span}})
+    # test the flag itself rather than a temporary copy of it, so that jump threading can follow the flag's constant setters
+    disc = copy.deepcopy(args[0])
+    for _ in range(3):
+        ds = [s_ for b_ in blocks for s_ in b_["stmts"] if s_["k"] == "assign" and s_["pl"]["l"] == disc["pl"]["l"] and not s_["pl"]["p"]]
+        if len(ds) == 1 and ds[0]["rv"]["k"] == "use" and ds[0]["rv"]["op"].get("k") in ("copy", "move") and not ds[0]["rv"]["op"]["pl"]["p"]:
+            disc = {"k": "copy", "pl": {"l": ds[0]["rv"]["op"]["pl"]["l"], "p": []}}
+        else:
+            break
+    blk["term"] = {"k": "switch", "discr": disc, "discr_ty": "bool", "targets": [[0, b_none]], "otherwise": b_some, "span": span, "std_summary": "bool::then_some"}
+    return True
+
+
+def _summarise_poll_map(raw, bi, t):
+    """`poll.map(f)` written out as `match poll { Ready(v) => Ready(f(v)), Pending => Pending }` (f a closure or a plain function), so
+    that the readiness of the inner poll stays visible to the router interpreter and `f` can be inlined"""
+    args = t.get("args", [])
+    if len(args) != 2 or args[0].get("k") not in ("copy", "move") or args[0]["pl"]["p"]:
+        return False
+    clo = args[1]
+    fn_item = clo.get("k") == "const" and clo.get("fn")
+    if clo.get("k") not in ("copy", "move") and not fn_item:
+        return False
+    span = t.get("span", "")
+    blocks, locs = raw["blocks"], raw["locals"]
+    blk = blocks[bi]
+    subj = args[0]["pl"]["l"]
+    adt = "core::task::poll::Poll"
+
+    def new_local(ty=""):
+        locs.append({"id": len(locs), "ty": ty, "synthetic": True})
+        return len(locs) - 1
+    d, pay, tup, res = new_local("isize"), new_local(), new_local(), new_local()
+    inl = blk.get("inl_stack", [])
+    org = blk.get("origin", raw["path"])
+    vs = _VARIANTS[adt]
+    b_call, b_wrap, b_pend = len(blocks), len(blocks) + 1, len(blocks) + 2
+    call = ({"k": "call", "callee": clo["fn"], "callee_full": clo.get("fn_full", clo["fn"]), "resolved": clo["fn"], "args": [{"k": "move", "pl": {"l": pay, "p": []}}]} if fn_item else
+            {"k": "call", "callee": "core::ops::function::FnOnce::call_once", "callee_full": "core::ops::function::FnOnce::call_once", "args": [clo, {"k": "move", "pl": {"l": tup, "p": []}}]})
+    call.update({"arg_tys": [], "dest": {"l": res, "p": []}, "target": b_wrap, "unwind": None, "span": span, "synthetic": True})
+    blocks.append({"id": b_call, "cleanup": False, "origin": org, "inl_stack": inl, "stmts": [
+        {"k": "assign", "pl": {"l": pay, "p": []}, "rv": {"k": "use", "op": {"k": "move", "pl": {"l": subj, "p": [{"v": 0, "vn": "Ready"}, 0]}}}, "span": span},
+        {"k": "assign", "pl": {"l": tup, "p": []}, "rv": {"k": "agg", "agg": "tuple", "ops": [{"k": "move", "pl": {"l": pay, "p": []}}]}, "span": span}], "term": call})
+    blocks.append({"id": b_wrap, "cleanup": False, "origin": org, "inl_stack": inl, "stmts": [
+        {"k": "assign", "pl": copy.deepcopy(t["dest"]), "rv": {"k": "agg", "agg": "adt", "adt": adt, "vidx": 0, "variant": "Ready", "fields": ["0"], "ops": [{"k": "move", "pl": {"l": res, "p": []}}]}, "span": span}],
+        "term": {"k": "goto", "target": t["target"], "span": span}})
+    blocks.append({"id": b_pend, "cleanup": False, "origin": org, "inl_stack": inl, "stmts": [
+        {"k": "assign", "pl": copy.deepcopy(t["dest"]), "rv": {"k": "agg", "agg": "adt", "adt": adt, "vidx": 1, "variant": "Pending", "fields": [], "ops": []}, "span": span}],
+        "term": {"k": "goto", "target": t["target"], "span": span}})
+    blk["stmts"] = blk["stmts"] + [{"k": "assign", "pl": {"l": d, "p": []}, "rv": {"k": "discr", "pl": {"l": subj, "p": []}, "adt": adt, "ty": adt, "variants": vs}, "span": span}]
+    blk["term"] = {"k": "switch", "discr": {"k": "move", "pl": {"l": d, "p": []}}, "discr_ty": "isize", "targets": [[0, b_call]], "otherwise": b_pend, "span": span, "std_summary": "core::task::poll::Poll::map"}
     return True
 
 
